@@ -19,6 +19,7 @@ type VRec struct {
 	Run   int            `json:"run"`   // lowest failing run index
 	Tape  []uint32       `json:"tape"`  // its tape
 	Count int            `json:"count"` // failing runs with this signature
+	Cold  bool           `json:"cold"`  // found by a cold-start run (fresh process, no warm-up): replay the same way
 }
 
 type Sample struct {
@@ -54,6 +55,12 @@ func NewWorkerOut(prop string) *WorkerOut {
 func (o *WorkerOut) WantSample() bool { return len(o.Samples) < 3 }
 
 func (o *WorkerOut) Add(run int, src *tape.Source, r *core.Result) {
+	o.AddRaw(run, src.Rec, src.Hash(), r, false)
+}
+
+// AddRaw adds a result whose tape was recorded elsewhere (a cold-start run
+// executed by a fresh child process).
+func (o *WorkerOut) AddRaw(run int, tapeRec []uint32, hash uint64, r *core.Result, cold bool) {
 	o.Runs++
 	o.Evals += r.Evals
 	o.Steps += r.Steps
@@ -67,7 +74,7 @@ func (o *WorkerOut) Add(run int, src *tape.Source, r *core.Result) {
 	if r.Nontrivial {
 		k := r.CaseKey
 		if k == 0 {
-			k = src.Hash()
+			k = hash
 		}
 		o.Keys[k] = true
 	}
@@ -90,7 +97,7 @@ func (o *WorkerOut) Add(run int, src *tape.Source, r *core.Result) {
 		key := v.Oracle + "\x00" + v.Sig
 		rec := o.Viol[key]
 		if rec == nil {
-			o.Viol[key] = &VRec{V: v, Run: run, Tape: append([]uint32(nil), src.Rec...), Count: 1}
+			o.Viol[key] = &VRec{V: v, Run: run, Tape: append([]uint32(nil), tapeRec...), Count: 1, Cold: cold}
 		} else {
 			rec.Count++
 		}
@@ -173,7 +180,7 @@ func (o *WorkerOut) Merge(b *WorkerOut) {
 		} else {
 			cur.Count += r.Count
 			if r.Run < cur.Run {
-				cur.Run, cur.Tape, cur.V = r.Run, r.Tape, r.V
+				cur.Run, cur.Tape, cur.V, cur.Cold = r.Run, r.Tape, r.V, r.Cold
 			}
 		}
 	}
@@ -252,6 +259,7 @@ type ReplayFile struct {
 	Reproduced   bool     `json:"reproduced_in_fresh_evaluation"`
 	Toolchain    string   `json:"toolchain"`
 	Race         bool     `json:"race_build"`
+	Cold         bool     `json:"cold_start_run"`
 	// Extra carries engine-specific replay data (C19: scenario + fault point).
 	Extra json.RawMessage `json:"extra,omitempty"`
 }
